@@ -645,6 +645,18 @@ func (en *Engine) VerifyFunc(fc *FuncContract) (res *FuncResult) {
 				hooks[gu.OnCall] = true
 			}
 		}
+		// optional hooks ("f?") that match no call at all are reported to the developer (a misspelt name would
+		// otherwise check nothing, silently)
+		for name := range fc.CallSites {
+			if fc.OptHooks[name] && !top.hookSeen[name] {
+				top.note("optional hook " + name + " matches no call of this function: its clauses cannot be evaluated here")
+			}
+		}
+		for _, gu := range fc.GhostUps {
+			if gu.OnCall != "" && gu.Optional && !top.hookSeen[gu.OnCall] {
+				top.note("optional hook " + gu.OnCall + " matches no call of this function: its ghost updates cannot be evaluated here")
+			}
+		}
 		var hn []string
 		for name := range hooks {
 			hn = append(hn, name)
